@@ -190,6 +190,36 @@ Definition api_reader_auth (cmd : bytes) (args : list cbor) : option cbor :=
       end
     | _ => None
     end
+  else if bytes_eqb cmd (bytes_of_string "c04.spec_reported") then
+    (* issuer status Valid only if every element the reader REPORTS (namespace, identifier) is the
+       elementIdentifier of an item of that namespace of the document that was authenticated (dc) *)
+    match args with
+    | [dc; CArray [CUInt ist; CArray reported]] =>
+      match doc_of dc with
+      | Some d =>
+        let item_identifier (it : bytes) : option bytes :=
+            match decode_first it with
+            | Some (CMap m) => match map_get (tx "elementIdentifier") m with Some (CText i) => Some i | _ => None end
+            | _ => None
+            end in
+        let covered (r : cbor) : bool :=
+            match r with
+            | CArray [CText ns; CText id] =>
+              match rd_namespaces d with
+              | Some nss =>
+                existsb (fun ni => bytes_eqb (fst ni) ns &&
+                                   existsb (fun it => match item_identifier it with Some i => bytes_eqb i id | None => false end) (snd ni)) nss
+              | None => false
+              end
+            | _ => false
+            end in
+        Some (if (ist =? 2) && negb (forallb covered reported) then
+                ctext "fail:issuer authentication Valid although a reported element is not an element of the authenticated document"
+              else ctext "ok")
+      | None => None
+      end
+    | _ => None
+    end
   else if bytes_eqb cmd (bytes_of_string "c05.spec") then
     (* device status Valid only if the device signature verifies under the MSO device key over the
        DeviceAuthentication structure of THIS session, docType and device namespaces; never a panic *)
